@@ -470,6 +470,12 @@ def run_shard(spec, shard):
         doc = diff.make_doc(r, tier, falsy_bias=0.2)
         ast, text, used = diff.make_query(r, shard, filters=True, doc=doc, max_segs=3)
         one({"q": text, "doc": doc}, {"valid"})
+        if r.random() < 0.05:
+            # a scalar as the query argument - in particular a string holding JSON text, which is a string like any other
+            import json as _json
+            root = r.choice([_json.dumps(doc), "[1, 2, 3]", '{"a": 1}', "123", "null", '"x"', "", 12, None, True, 1.5])
+            for q2 in ("$", text, "$[0]", "$.a", "$..*", "$[?@]"):
+                one({"q": q2, "doc": root}, {"scalar-root"})
         m, kinds = M.mutant(text, r)
         if lib.compile_(m)[0] != "ok":
             one({"q": m, "doc": doc}, {"invalid"})
